@@ -190,7 +190,10 @@ func c20Schema(o *oracleRun, r *rand.Rand, cs int64) {
 	}
 	vals := map[string][]string{
 		"int-or-string": {"8080", "80", "http", "25%", "1", "metrics"},
-		"string":        {"8080", "on", "true", "abc", "1.5", "012", "no", "x-y", "1e3", "yes"},
+		"string": {"8080", "on", "true", "abc", "1.5", "012", "no", "x-y", "1e3", "yes",
+			// numbers have no maximum length: a 128-bit and a 256-bit integer, a long decimal fraction
+			"340282366920938463463374607431768211455", "115792089237316195423570985008687907853269984665640564039457584007913129639935",
+			"3.14159265358979323846264338327950288419716939937510"},
 		"integer":       {"3", "8080", "0"},
 		"boolean":       {"true", "false", "on", "no"},
 	}
